@@ -223,7 +223,7 @@ pub fn source(tier: Tier) -> impl Strategy<Value = Source> {
 }
 
 fn strategy(tier: Tier) -> BoxedStrategy<Case> {
-    (source(tier), seg_strategy(3000), (0..3usize).prop_map(|i| FLAVOURS[i]))
+    (source(tier), seg_strategy(3000), prop_oneof![3 => 0..3usize, 1 => 3..5usize].prop_map(|i| crate::streamlab::ALL_FLAVOURS[i]))
         .prop_map(|(src, seg, flavour)| Case { src, seg, flavour })
         .boxed()
 }
